@@ -135,6 +135,13 @@ def searchLoop (f : Int → Option Bool) : Nat → Int → Int → Option Int
 
 def searchGo (n : Int) (f : Int → Option Bool) : Option Int := searchLoop f (n.toNat + 1) 0 n
 
+/-- What a consumer that may keep state sees: `h` is asked about the list of all items handed over so far
+(the current one last) and answers whether to continue.  `takeThroughH h acc xs` = the items of `xs`
+handed over, after `acc` already was, until `h` first says stop (that item included). -/
+def takeThroughH {α : Type} (h : List α → Bool) : List α → List α → List α
+  | acc, [] => acc
+  | acc, x :: xs => if h (acc ++ [x]) then takeThroughH h (acc ++ [x]) xs else acc ++ [x]
+
 /-- An `io.Writer` that accepts `room` more bytes and then fails (what the properties quantify over:
 "the destination starts failing after any number of bytes"); `out` = the bytes accepted so far. -/
 structure Wr where
